@@ -194,6 +194,13 @@ func runC13(r *Report, rng *rand.Rand, thorough bool) {
 	}
 	var pkgs []LabPkg
 	per := 40
+	// generated FIRST in the same process: a document whose operations carry the ids of the first package's operations and
+	// declare one plain response each (what a generation leaves behind must not reach the next document's response tables)
+	var decoy []rpOp
+	for _, o := range ops[:min(per, len(ops))] {
+		decoy = append(decoy, rpOp{o.id, []rpResponse{{"200", []rpMedia{{"application/json", "json"}}}}, false})
+	}
+	pkgs = append(pkgs, LabPkg{Name: "c13_a_decoy", Spec: rpSpec(decoy), Cfg: codegen.Configuration{Generate: codegen.GenerateOptions{Client: true, Models: true}}})
 	for i := 0; i < len(ops); i += per {
 		j := i + per
 		if j > len(ops) {
@@ -563,7 +570,7 @@ func runC13(r *Report, rng *rand.Rand, thorough bool) {
 		}
 	}
 	pcases.WriteTo(r)
-	r.Rule = "operations with 1-4 declared responses over {200, 201, 404, 500, 2XX, 4XX, 5XX, default} x 0-3 media types each from {application/json, vendor +json (3), hal+json, yaml (2), xml (2), unparsable (2), structured-syntax +xml (2)} (two fixed witnesses and common shapes first; every sixth operation declares free-form schemas), generated client compiled; Parse<Op>Response called on synthesized replies: statuses {200,201,204,299,404,418,500,503} x every declared media type + application/json (+charset) + text/html, and every declared pair answered once with a status only that response matches best (every typed field of the response type must be filled by some declared reply); replies framed with Content-Length or chunked, every other response inspected only after the same function has parsed a later reply, and replies to HEAD requests (announced length, empty body); observed = which typed fields are non-nil, raw body and status; typed request builders (JSON, vendor JSON, form, text) checked for Content-Type and encoding; the typed methods <Op>WithResponse of a client assembled from its options (doer with a canned declared reply, two client editors, one call editor; server URL with and without final slash and path prefix) must send the builder's request to the right path, edited by every editor once in order, and return what Parse<Op>Response makes of the reply; non-trivial = a declared pair is expected with several responses declared"
+	r.Rule = "operations with 1-4 declared responses over {200, 201, 404, 500, 2XX, 4XX, 5XX, default} x 0-3 media types each from {application/json, vendor +json (3), hal+json, yaml (2), xml (2), unparsable (2), structured-syntax +xml (2)} (two fixed witnesses and common shapes first; a decoy document with the same operation ids and one plain response each is generated before them in the same process; every sixth operation declares free-form schemas), generated client compiled; Parse<Op>Response called on synthesized replies: statuses {200,201,204,299,404,418,500,503} x every declared media type + application/json (+charset) + text/html, and every declared pair answered once with a status only that response matches best (every typed field of the response type must be filled by some declared reply); replies framed with Content-Length or chunked, every other response inspected only after the same function has parsed a later reply, and replies to HEAD requests (announced length, empty body); observed = which typed fields are non-nil, raw body and status; typed request builders (JSON, vendor JSON, form, text) checked for Content-Type and encoding; the typed methods <Op>WithResponse of a client assembled from its options (doer with a canned declared reply, two client editors, one call editor; server URL with and without final slash and path prefix) must send the builder's request to the right path, edited by every editor once in order, and return what Parse<Op>Response makes of the reply; non-trivial = a declared pair is expected with several responses declared"
 }
 
 // rpRepresentative: a status that the named response matches and no more specific declared response does (0 if none).
